@@ -6,6 +6,7 @@ package main
 
 import (
 	"sort"
+	"strconv"
 	"strings"
 )
 
@@ -43,6 +44,8 @@ type progGen struct {
 	aggregate bool     // aggregate calls allowed at the top of an expression
 	maxDepth  int
 	safeNames bool // only plain identifiers (for evaluator-oriented cases)
+	evalMode  bool // programs the reference evaluators can run: tables T U V, columns a b c k s, fresh new names
+	fresh     *int
 }
 
 var plainNames = []string{"a", "b", "c", "x", "y", "name", "ts", "user_id", "cnt", "_v", "a1", "T2"}
@@ -54,6 +57,18 @@ var numberLits = []string{"0", "1", "2", "42", "007", "3.14", ".5", "1.", "1e3",
 func pick[T any](xs []T) T { return xs[rng.Intn(len(xs))] }
 
 func (g *progGen) ident() *enode {
+	if g.evalMode {
+		switch r := rng.Intn(12); {
+		case r < 9:
+			return &enode{kind: "ident", text: pick(g.cols)}
+		case r < 10 && len(g.bound) > 0:
+			return &enode{kind: "ident", text: pick(g.bound)}
+		case r < 11 && g.joinCtx:
+			return &enode{kind: "qual", text: pick([]string{"$left", "$right"}) + "." + pick([]string{"a", "b", "c", "k", "s"})}
+		default:
+			return &enode{kind: "ident", text: pick([]string{"true", "false", "null"})}
+		}
+	}
 	switch r := rng.Intn(20); {
 	case r < 11:
 		return &enode{kind: "ident", text: pick(g.cols)}
@@ -72,6 +87,16 @@ func (g *progGen) ident() *enode {
 }
 
 func (g *progGen) atom() *enode {
+	if g.evalMode {
+		switch r := rng.Intn(10); {
+		case r < 5:
+			return g.ident()
+		case r < 8:
+			return &enode{kind: "lit", text: pick([]string{"0", "1", "2", "3"})}
+		default:
+			return &enode{kind: "lit", text: pick([]string{"'a'", "'A'", "'b'"})}
+		}
+	}
 	switch r := rng.Intn(10); {
 	case r < 5:
 		return g.ident()
@@ -102,6 +127,9 @@ func (g *progGen) call(depth int) *enode {
 		}
 	default:
 		n.text = pick(unknownFuncs)
+		if g.evalMode {
+			n.text = pick([]string{"foo", "lower", "abs", "f_2"})
+		}
 		k := rng.Intn(4)
 		for i := 0; i < k; i++ {
 			n.kids = append(n.kids, g.expr(depth-1))
@@ -132,7 +160,7 @@ func (g *progGen) expr(depth int) *enode {
 			n.kids = append(n.kids, g.expr(depth-2))
 		}
 		return n
-	case r < 16:
+	case r < 16 && !g.evalMode:
 		return &enode{kind: "index", kids: []*enode{g.expr(depth - 1), g.expr(depth - 1)}}
 	case r < 18:
 		return g.call(depth)
@@ -293,6 +321,10 @@ type opts struct {
 }
 
 func (g *progGen) colName() string {
+	if g.evalMode {
+		*g.fresh++
+		return "n" + strconv.Itoa(*g.fresh)
+	}
 	if !g.safeNames && rng.Intn(6) == 0 {
 		return pick(oddNames)
 	}
@@ -306,6 +338,20 @@ func (g *progGen) exprToks(depth int) []string {
 }
 
 func (g *progGen) aggToks(depth int) []string {
+	if g.evalMode {
+		switch rng.Intn(5) {
+		case 0:
+			return []string{"count", "(", ")"}
+		case 1:
+			return append(append([]string{"countif", "("}, g.exprToks(depth)...), ")")
+		case 2:
+			return []string{pick([]string{"sum", "min", "max"}), "(", pick([]string{"a", "b", "c", "k"}), ")"}
+		case 3:
+			return []string{"sum", "(", pick([]string{"a", "b"}), ")", "+", "count", "(", ")"}
+		default:
+			return []string{pick([]string{"min", "max"}), "(", pick([]string{"a", "s"}), ")"}
+		}
+	}
 	switch rng.Intn(6) {
 	case 0:
 		return []string{"count", "(", ")"}
@@ -462,6 +508,9 @@ func (g *progGen) operator(name string, o opts) []string {
 }
 
 func (g *progGen) rowCount() string {
+	if g.evalMode {
+		return pick([]string{"0", "1", "2", "3", "5"})
+	}
 	if len(g.bound) > 0 && rng.Intn(4) == 0 {
 		return pick(g.bound)
 	}
@@ -469,6 +518,9 @@ func (g *progGen) rowCount() string {
 }
 
 func (g *progGen) tableName() string {
+	if g.evalMode {
+		return pick([]string{"T", "U", "V"})
+	}
 	if !g.safeNames && rng.Intn(6) == 0 {
 		return pick([]string{"`my table`", "`weird\"name`", "`t``1`", "T_1", "$t"})
 	}
@@ -757,4 +809,86 @@ var compileCorpus = []string{
 	"T | where a[1] == 2", "T | where a['k'] == 2", "T | where -1 - -1", "T | where a - (b - c)", "T | where (a + b) * c", "T | where a + b * c",
 	"T | where a in (1) + 2", "T | extend x = a in (1, 2)", "T | sort by a asc, b desc nulls first, c nulls last",
 	"T | summarize a,", "T | where f(b[=])", "__subquery0 | join (__subquery0) on a", "T | as __subquery1 | count",
+}
+
+
+func init() {
+	caseSets["eval"] = genEvalCases
+}
+
+// genEvalProgram: a program over tables T U V (columns a b c k s) that the reference evaluators
+// can run; new column and `as` names are fresh.
+func genEvalProgram(depth int, joins int) string {
+	fresh := 0
+	g := &progGen{cols: []string{"a", "b", "c", "k", "s"}, evalMode: true, safeNames: true, fresh: &fresh}
+	var out []string
+	if rng.Intn(5) == 0 {
+		out = append(out, "let", "lim", "=", pick([]string{"1", "2", "1 + 1", "-1", "(2)"}), ";")
+		g.bound = append(g.bound, "lim")
+	}
+	out = append(out, g.tabular(opts{depth: depth, joins: joins})...)
+	return layout(out, false)
+}
+
+var evalCorpus = []string{
+	"T | take 1 | sort by a", "T | sort by a | take 1", "T | sort by a asc | sort by b", "T | take 2 | take 1", "T | take 1 | take 2",
+	"T | top 2 by a | top 1 by b asc", "T | project n1 = a | sort by n1", "T | where a > 0 | take 1", "T | take 1 | where a > 0",
+	"T | count | count", "T | summarize count() by a | sort by a asc", "T | summarize n1 = sum(b), n2 = count() by a, c",
+	"T | extend n1 = a + 1 | where n1 > 1 | project n1, b", "T | sort by a desc nulls first, b asc nulls last | take 2",
+	"T | as x1 | take 1 | as x2 | count", "T | render t | take 1", "T | take 1 | render t with (title='x')",
+	"T | join (U) on k", "T | join kind=inner (U) on k", "T | join kind=leftouter (U) on k", "T | join kind=inner (U) on $left.a == $right.b",
+	"T | where a > 0 | join kind=inner (U | where b > 0 | project k, n1 = a) on k | count",
+	"T | where a > 0 | join kind=inner (U | join kind=inner (V) on k) on k", "T | join kind=inner (U) on k | join kind=inner (V) on k",
+	"T | take 2 | join kind=leftouter (U | take 1) on k | sort by a", "T | join (U) on k, $left.a == $right.a | summarize count() by k",
+	"T | join kind=inner (U | sort by a | take 1) on k | take 1", "T | sort by a | join kind=inner (U) on k",
+	"T | where a in (1, 2) and not(isnull(b)) | project a, n1 = iff(b > 1, 'x', s)", "T | summarize by a", "T | summarize count()",
+	"T | where s =~ 'A' | count", "T | where a == null | count", "T | where a != 1 | count", "T | extend n1 = strcat(s, 'x') | take 3",
+	"T | top 1 by a | sort by b | take 1", "T | take 3 | summarize count()", "T | summarize n1 = count() | take 1",
+	"T | project a, b | take 1 | project a", "T | sort by a | project a", "T | sort by a | where b > 0", "T | take 2 | extend n1 = 1 | sort by a",
+}
+
+func genEvalCases(tier string, emit func(op string, fields ...string)) {
+	n := 4000
+	if tier == "thorough" {
+		n = 80000
+	}
+	seed := 0
+	for _, s := range evalCorpus {
+		for k := 0; k < 3; k++ {
+			seed++
+			emit("EVAL", hexs(s), strconv.Itoa(seed*7))
+		}
+	}
+	for i := 0; i < n; i++ {
+		seed++
+		joins := 0
+		if i%3 == 0 {
+			joins = 2
+		}
+		emit("EVAL", hexs(genEvalProgram(1+rng.Intn(2), joins)), strconv.Itoa(seed*7))
+	}
+	// exhaustive short operator sequences with fixed small arguments (C02)
+	opsFixed := []string{"where a > 0", "project a, b, k", "extend n9 = a + 1", "summarize n8 = count() by a", "sort by a asc", "sort by b",
+		"take 2", "top 2 by b", "count", "as x1", "render t"}
+	maxLen := 3
+	if tier == "thorough" {
+		maxLen = 4
+	}
+	for l := 1; l <= maxLen; l++ {
+		enumerate(opsFixed, l, func(string) {})
+	}
+	var rec func(prefix []string, l int)
+	rec = func(prefix []string, l int) {
+		if l == 0 {
+			seed++
+			emit("EVAL", hexs("T | "+strings.Join(prefix, " | ")), strconv.Itoa(seed*7))
+			return
+		}
+		for _, o := range opsFixed {
+			rec(append(append([]string{}, prefix...), o), l-1)
+		}
+	}
+	for l := 1; l <= maxLen; l++ {
+		rec(nil, l)
+	}
 }
